@@ -151,6 +151,23 @@ def strategy_dataset(draw, tier):
         if op["k"] == "filler" and draw(st.integers(0, 4)) == 0 and \
                 i < len(case["ops"]) - 1:
             op["k"] = "unpublished"
+    if draw(st.integers(0, 2)) == 0:
+        # recovery pattern: a directory is published, an unpublished (killed)
+        # session continues in the SAME directory and split, then another
+        # session into the same split completes
+        split = draw(st.integers(0, 2))
+        n = st.integers(1, 2 * eps + 1)
+        first = draw(st.sampled_from(["new", "root"]))
+        third = draw(st.sampled_from(["new", "root", "reuse", "nested"]))
+        case["ops"] = case["ops"][:1] + [
+            {"k": "filler", "dir": {"rel": first, "pick": 0},
+             "runs": [[split, draw(n), 0, None]], "reopen": draw(st.booleans())},
+            {"k": "unpublished",
+             "dir": {"rel": "reuse" if first == "new" else "root", "pick": 50},
+             "runs": [[split, draw(n), 0, None]], "reopen": False},
+            {"k": "filler", "dir": {"rel": third, "pick": draw(st.integers(0, 3))},
+             "runs": [[split, draw(n), 0, None]], "reopen": draw(st.booleans())},
+        ]
     return case
 
 
